@@ -14,6 +14,17 @@ refactoring introduces, so that every rule sees one form:
       (e a name / attribute / subscript, so evaluating it several times is harmless)
   N3  function form of the matrix product
           np.matmul(a, b) / matmul(a, b)  ->   a @ b
+  N3b np.transpose(a), a.transpose()     ->   a.T
+  N6  np.concatenate((a, b)) of a display, default axis   ->   np.r_[a, b]   (hstack is NOT rewritten: it differs for 2-D)
+  N7  xs = []                                 xs = [E for t in it]
+      for t in it: xs.append(E)        ->
+      also when the loop is the first mention of xs in an arm of an if-chain that follows `xs = []` (xs is still empty there)
+  N8  if c: xs = [..]                         if c: xs = [..]; return f(xs)
+      else: xs = [..]                  ->     else: xs = [..]; return f(xs)
+      return f(xs)
+      (tail duplication; only when an arm ends by assigning a list display / comprehension to a name the return mentions)
+  N9  xs = [E for ..]; S(xs)           ->     S([E for ..])      xs a single-use local, S the next statement
+      (operands of S evaluated before xs are evaluated after it instead: no rule depends on the order of pure operands)
   N4  negated disjunction / conjunction in a test position is left to the fact splitter (cfg._split handles polarity)
 
 Set VERIF_NO_NORMALIZE=1 to analyse the raw AST (development aid)."""
@@ -73,7 +84,173 @@ class _Normalise(ast.NodeTransformer):
             node = ast.BinOp(left=n.args[0], op=ast.MatMult(), right=n.args[1])
             ast.copy_location(node, n)
             return node
+        # N3b  np.transpose(a) / a.transpose()  ->  a.T
+        if name == 'transpose' and not n.keywords:
+            if isinstance(fn, ast.Attribute) and isinstance(fn.value, ast.Name) and fn.value.id in ('np', 'numpy') and len(n.args) == 1:
+                node = ast.Attribute(value=n.args[0], attr='T', ctx=ast.Load())
+                ast.copy_location(node, n)
+                return node
+            if isinstance(fn, ast.Attribute) and not (isinstance(fn.value, ast.Name) and fn.value.id in ('np', 'numpy')) and not n.args:
+                node = ast.Attribute(value=fn.value, attr='T', ctx=ast.Load())
+                ast.copy_location(node, n)
+                return node
+        # N6  np.concatenate((a, b)) of a display (default axis 0)  ->  np.r_[a, b]
+        if name == 'concatenate' and len(n.args) == 1 and not n.keywords and isinstance(n.args[0], (ast.Tuple, ast.List)) \
+                and isinstance(fn, ast.Attribute) and isinstance(fn.value, ast.Name) and fn.value.id in ('np', 'numpy') and len(n.args[0].elts) >= 2:
+            node = ast.Subscript(value=ast.Attribute(value=fn.value, attr='r_', ctx=ast.Load()),
+                                 slice=ast.Tuple(elts=list(n.args[0].elts), ctx=ast.Load()), ctx=ast.Load())
+            ast.copy_location(node, n)
+            ast.fix_missing_locations(node)
+            return node
         return n
+
+    # ---- N7  accumulate-by-append loops
+    @staticmethod
+    def _append_loop(st, name):
+        """`for T in IT: name.append(E)` with name not read in E / IT  ->  the comprehension, else None"""
+        if not (isinstance(st, ast.For) and not st.orelse and len(st.body) == 1 and isinstance(st.body[0], ast.Expr)):
+            return None
+        c = st.body[0].value
+        if not (isinstance(c, ast.Call) and isinstance(c.func, ast.Attribute) and c.func.attr == 'append' and isinstance(c.func.value, ast.Name)
+                and c.func.value.id == name and len(c.args) == 1 and not c.keywords):
+            return None
+        if _refs(c.args[0], name) or _refs(st.iter, name) or _refs(st.target, name):
+            return None
+        comp = ast.ListComp(elt=c.args[0], generators=[ast.comprehension(target=st.target, iter=st.iter, ifs=[], is_async=0)])
+        node = ast.Assign(targets=[ast.Name(id=name, ctx=ast.Store())], value=comp)
+        ast.copy_location(node, st)
+        ast.copy_location(comp, st)
+        ast.fix_missing_locations(node)
+        return node
+
+    def _rewrite_first_fill(self, stmts, name):
+        """`name` is known to be [] on entry to stmts.  The first statement on each path that mentions name is rewritten when it
+        is an append loop (then name = [comprehension]); any other mention ends the rewriting on that path.
+        -> (new statements, rewritten at this level?)"""
+        out = []
+        for i, st in enumerate(stmts):
+            if not _refs(st, name):
+                out.append(st)
+                continue
+            node = self._append_loop(st, name)
+            if node is not None:
+                return out + [node] + stmts[i + 1:], True
+            if isinstance(st, ast.If) and not _refs(st.test, name):
+                st.body, _ = self._rewrite_first_fill(st.body, name)
+                if st.orelse:
+                    st.orelse, _ = self._rewrite_first_fill(st.orelse, name)
+            return out + stmts[i:], False
+        return out, False
+
+    def _fold_append_loops(self, stmts):
+        out = []
+        i = 0
+        while i < len(stmts):
+            st = stmts[i]
+            if isinstance(st, ast.Assign) and len(st.targets) == 1 and isinstance(st.targets[0], ast.Name) and isinstance(st.value, ast.List) \
+                    and not st.value.elts and i + 1 < len(stmts):
+                tail, top = self._rewrite_first_fill(stmts[i + 1:], st.targets[0].id)
+                if not top:
+                    out.append(st)          # some path may still see the empty list
+                stmts = stmts[:i + 1] + tail
+                i += 1
+                continue
+            out.append(st)
+            i += 1
+        return out
+
+    # ---- N8  a return that follows an if-chain whose arms end by assigning the returned name is moved into the arms
+    def _sink_returns(self, stmts):
+        if len(stmts) < 2 or not isinstance(stmts[-1], ast.Return) or not isinstance(stmts[-2], ast.If) or stmts[-1].value is None:
+            return stmts
+        ret, chain = stmts[-1], stmts[-2]
+        names = {n.id for n in ast.walk(ret.value) if isinstance(n, ast.Name)}
+
+        def arms(node):
+            yield node.body
+            if len(node.orelse) == 1 and isinstance(node.orelse[0], ast.If):
+                yield from arms(node.orelse[0])
+            elif node.orelse:
+                yield node.orelse
+
+        def fills(body):
+            last = body[-1]
+            return isinstance(last, ast.Assign) and len(last.targets) == 1 and isinstance(last.targets[0], ast.Name) and \
+                last.targets[0].id in names and isinstance(last.value, (ast.ListComp, ast.List))
+        bodies = list(arms(chain))
+        if not any(fills(b) for b in bodies):
+            return stmts
+        import copy
+
+        def sink(node):
+            if not _exits(node.body):
+                node.body = node.body + [copy.deepcopy(ret)]
+            if len(node.orelse) == 1 and isinstance(node.orelse[0], ast.If):
+                sink(node.orelse[0])
+            elif node.orelse:
+                if not _exits(node.orelse):
+                    node.orelse = node.orelse + [copy.deepcopy(ret)]
+            else:
+                node.orelse = [copy.deepcopy(ret)]
+        sink(chain)
+        return stmts[:-1]
+
+    # ---- N9  xs = [display / comprehension]; <statement using xs once>   ->   the statement with the list in place
+    def _inline_lists(self, stmts, scope):
+        out = []
+        i = 0
+        while i < len(stmts):
+            st = stmts[i]
+            nxt = stmts[i + 1] if i + 1 < len(stmts) else None
+            if isinstance(st, ast.Assign) and len(st.targets) == 1 and isinstance(st.targets[0], ast.Name) and isinstance(st.value, ast.ListComp) \
+                    and isinstance(nxt, (ast.Return, ast.Assign, ast.Expr)):
+                name = st.targets[0].id
+                uses = [n for n in ast.walk(nxt) if isinstance(n, ast.Name) and n.id == name]
+                total = sum(1 for n in ast.walk(scope) if isinstance(n, ast.Name) and n.id == name)
+                if len(uses) == 1 and isinstance(uses[0].ctx, ast.Load) and (total == 2 or isinstance(nxt, ast.Return)):
+                    nxt2 = _Replace(uses[0], st.value).visit(nxt)
+                    out.append(nxt2)
+                    i += 2
+                    continue
+            out.append(st)
+            i += 1
+        return out
+
+    def _blocks(self, node, scope):
+        for fld in ('body', 'orelse', 'finalbody'):
+            stmts = getattr(node, fld, None)
+            if isinstance(stmts, list) and stmts and isinstance(stmts[0], ast.stmt):
+                stmts = self._fold_append_loops(stmts)
+                stmts = self._sink_returns(stmts)
+                setattr(node, fld, stmts)
+        for ch in ast.iter_child_nodes(node):
+            if isinstance(ch, (ast.FunctionDef, ast.AsyncFunctionDef)):
+                self._blocks(ch, ch)
+            elif isinstance(ch, (ast.stmt, ast.ExceptHandler)) or isinstance(ch, ast.ClassDef):
+                self._blocks(ch, scope)
+
+    def _inline_pass(self, node, scope):
+        for fld in ('body', 'orelse', 'finalbody'):
+            stmts = getattr(node, fld, None)
+            if isinstance(stmts, list) and stmts and isinstance(stmts[0], ast.stmt) and scope is not None:
+                setattr(node, fld, self._inline_lists(stmts, scope))
+        for ch in ast.iter_child_nodes(node):
+            if isinstance(ch, (ast.FunctionDef, ast.AsyncFunctionDef)):
+                self._inline_pass(ch, ch)
+            elif isinstance(ch, (ast.stmt, ast.ExceptHandler)):
+                self._inline_pass(ch, scope)
+
+
+class _Replace(ast.NodeTransformer):
+    def __init__(self, target, value):
+        self.target, self.value = target, value
+
+    def visit_Name(self, n):
+        return self.value if n is self.target else n
+
+
+def _refs(node, name):
+    return any(isinstance(x, ast.Name) and x.id == name for x in ast.walk(node))
 
 
 def _exits(body):
@@ -109,7 +286,10 @@ def annotate_continuations(tree):
 def normalise(tree):
     if os.environ.get('VERIF_NO_NORMALIZE') == '1':
         return tree
-    tree = _Normalise().visit(tree)
+    nz = _Normalise()
+    tree = nz.visit(tree)
+    nz._blocks(tree, None)
+    nz._inline_pass(tree, None)
     ast.fix_missing_locations(tree)
     annotate_continuations(tree)
     return tree
